@@ -30,6 +30,14 @@ ASSUMPTIONS = ['the equal-value claim is decided by proof only in the directions
 
 def gen_f(rng, n, separable=False):
     """positive terms at 'vertices' (incl. the constant), negative terms at midpoints of pairs of vertices: bounded below"""
+    if separable == 'multineg':
+        # several negative terms inside the Newton polytope: exp(4 x0) - a exp(3 x0) - b exp(x0) (+ c), padded with zeros
+        pad = [Fraction(0)] * (n - 1)
+        rows = [([Fraction(4)] + pad, Fraction(rng.choice([1, 2]))), ([Fraction(3)] + pad, Fraction(-rng.choice([1, 2, 3]))),
+                ([Fraction(1)] + pad, Fraction(-rng.choice([1, 2])))]
+        if rng.random() < 0.5:
+            rows.append(([Fraction(0)] + pad, Fraction(rng.choice([1, 3]))))
+        return rows
     if n >= 2 and separable == 'rowsum':
         # some exponents are negative while every row sum is nonnegative and the zero row is present: the orthogonality-based
         # cover reduction (valid for nonnegative exponent matrices only) must not fire
@@ -203,7 +211,7 @@ def compare(out, f7, X, ub):
 
 
 def one(rng, separable=False):
-    n = 2 if separable else rng.randint(1, 2)
+    n = 1 if separable == 'multineg' else (2 if separable else rng.randint(1, 2))
     rows = gen_f(rng, n, separable)
     f = c03.sig_obj(rows, n)
     kind = rng.choice(['none', 'none', 'none', 'box', 'ball'])
@@ -225,7 +233,7 @@ def run(ctx):
     kf = {f['id']: f for f in vlib.load_known_findings().get('findings', [])}
     hit = False
     for it in range(ctx.n(30, 240)):
-        why, known, js, out = one(ctx.rng, separable=(True if it < 4 else ('rowsum' if it < 6 else False)))
+        why, known, js, out = one(ctx.rng, separable=(True if it < 4 else ('rowsum' if it < 6 else ('multineg' if it < 9 else False))))
         ctx.evaluations += len(out)
         ctx.count('domain', js['domain'])
         vals = sorted(set(round(v[1], 4) for v in out.values() if v[0] == 'solved' and isinstance(v[1], float) and math.isfinite(v[1])))
@@ -379,7 +387,7 @@ def search(ctx):
     if why:
         return {'suite': 'kernel_basis_small_scale', 'property_failure': why}
     for it in range(25):
-        why, known, js, out = one(ctx.rng, separable=(True if it < 4 else ('rowsum' if it < 6 else False)))
+        why, known, js, out = one(ctx.rng, separable=(True if it < 4 else ('rowsum' if it < 6 else ('multineg' if it < 9 else False))))
         if why:
             return {'instance': js, 'property_failure': why}
     return None
